@@ -1,6 +1,6 @@
 #!/bin/sh
 # scripts/try_patch.sh <patch.diff> <PROPERTY> [check args...]: apply a seeded change to /repo, run the check, undo it
-p="$1"; shift
+p=$(realpath "$1"); shift
 git -C /repo apply "$p" || { echo "patch does not apply"; exit 3; }
 "$(dirname "$0")/../check" "$@"; rc=$?
 git -C /repo checkout -- .
